@@ -71,9 +71,12 @@ class RegexMatch(Artifact):
         self.key = "R{}".format(id)
         self.id = id
         self.match = m
-        self.mstart = m.span(self.key)[0]
-        self.mend = m.span(self.key)[1]
-        self._text = m.group(self.key)
+        # some patterns end (or could begin) on optional blanks; the blanks around an
+        # expression are not part of it, so they are left out of the span
+        text = m.group(self.key)
+        self.mstart = m.span(self.key)[0] + (len(text) - len(text.lstrip()))
+        self.mend = m.span(self.key)[1] - (len(text) - len(text.rstrip()))
+        self._text = text.strip()
 
     def __str__(self) -> str:
         return "{}:{}".format(self.id, self._text)
